@@ -24,7 +24,9 @@ SHAPES = {
     "one": ["one", "tail"],
     "two": ["heap", "many"],
     "many": ["many", "big", "heap"],
-    "fail": ["rtfail", "assertfail"],
+    "fail": ["rtfail", "assertfail", "failnl_oob"],
+    "failp": ["failp_oob", "failp_assert"],     # output ends with an unterminated line, then a run-time error
+    "tailp": ["tail"],                          # output ends with an unterminated line, normal end
     "code": ["exitcode"],
 }
 BIG = "big"          # output far beyond a socket buffer: used by the disconnect-while-printing behaviours
@@ -120,13 +122,16 @@ class Bench:
         for name, tpls in SHAPES.items():
             for t in tpls:
                 s = self.module(t, 1)["std"]
-                fails = name == "fail"
+                fails = name in ("fail", "failp")
                 if fails != (s["exit"] != 0 and s["stderr"].startswith(b"Runtime error:")):
                     raise InfraError("corpus module %s: standalone run %r does not have shape %s" % (t, (s["exit"], s["stderr"][:80]), name))
                 if (name == "zero") != (len(s["stdout"]) == 0):
                     raise InfraError("corpus module %s: standalone output length %d does not fit shape %s" % (t, len(s["stdout"]), name))
                 if str(1).encode() not in s["stdout"] and name not in ("zero",):
                     raise InfraError("corpus module %s: output does not carry the client id" % t)
+                if (name in ("failp", "tailp")) != (len(s["stdout"]) > 0 and not s["stdout"].endswith(b"\n")):
+                    raise InfraError("corpus module %s: shape %s is about the last line being (un)terminated, standalone "
+                                     "output ends with %r" % (t, name, s["stdout"][-20:]))
 
     def hostile(self, variant, ident=1):
         """hostile module + proof that standalone nano_vm refuses it with a verification error"""
@@ -138,12 +143,41 @@ class Bench:
         path = os.path.join(self.cdir, "hostile_%s_%d.nvm" % (variant, ident))
         with open(path, "wb") as f:
             f.write(blob)
-        std = V.standalone(self.nano_vm, path, env=self.ctx.env())
-        if std["exit"] != 1 or b"verification failed" not in std["stderr"]:
-            raise InfraError("hostile module %s is not refused by the standalone verifier: %r" % (variant, std))
-        m = dict(template="hostile:" + variant, id=ident, path=path, blob=blob, std=std)
+        # hostile by construction: the function-table entry, re-read from the produced image, lies outside the code
+        # section in exact arithmetic (the verifier of the tree under test is *not* the judge of that - a broken
+        # verifier is exactly what must not bring the daemon down)
+        why = V.nvm_hostile_proof(blob)
+        if not why:
+            raise InfraError("nvm editor: variant %s did not produce a module that is hostile by construction" % variant)
+        std = V.standalone(self.nano_vm, path, env=self.ctx.env(), timeout=60)
+        refused = std["exit"] == 1 and b"verification failed" in std["stderr"]
+        if why == "opcode" and not refused:
+            return None                     # cannot tell that 0xFF is undefined without the verifier: variant not used
+        m = dict(template="hostile:" + variant, id=ident, path=path, blob=blob, std=std, standalone_refused=refused, why=why)
         self.mods[key] = m
         return m
+
+
+    def hostile_variants(self):
+        """the hostile variants that are usable on this tree (hostile by construction, see hostile())"""
+        if not hasattr(self, "_hv"):
+            self._hv = [v for v in V.HOSTILE_VARIANTS if self.hostile(v, 1) is not None]
+            if not self._hv:
+                raise InfraError("no usable hostile module")
+        return self._hv
+
+
+def sweep_clients(bench, rng, idbase=1):
+    """every corpus module once through the real client and once through a raw socket, all at the same time: whatever
+    the seeded sample of scenarios contains, each module shape is compared with its standalone run in every run"""
+    out = []
+    tpls = sorted({t for ts in SHAPES.values() for t in ts})
+    for j, (t, via) in enumerate((t, v) for t in tpls for v in ("cli", "raw")):
+        m = bench.module(t, idbase + j)
+        out.append(dict(id=idbase + j, kind="exec", c=j + 1, allowed=["exit"], abstract="sweep", via=via, template=t,
+                        path=m["path"], blob=m["blob"], std=m["std"]))
+    rng.shuffle(out)
+    return out
 
 
 # -------------------------------------------------------------------- observation comparison
@@ -216,7 +250,9 @@ def concretize(bench, scen, rng, idbase, hostile_variant=None, cli_share=0.5, bi
             m = bench.module(BIG if big and (kind != "disc_after" or rng.random() < 0.5) else "many", ident)
             cl.update(via="raw", expect_out_len=len(m["std"]["stdout"]))
         elif kind == "hostile":
-            m = bench.hostile(hostile_variant or rng.choice(V.HOSTILE_VARIANTS), ident)
+            usable = bench.hostile_variants()
+            hv = hostile_variant if hostile_variant in usable else rng.choice(usable)
+            m = bench.hostile(hv, ident)
             cl.update(via="raw", hostile_variant=m["template"].split(":")[1])
         else:
             m = bench.module("one", ident)
